@@ -211,25 +211,30 @@ SPEC = {
     "targets": ["props/C18.vo"],
     "model_targets": ["model/Pretty.vo", "model/Parser.vo", "model/TreeEq.vo", "model/Eq.vo"],
     "module": "C18",
-    "theorems": ["C18_refuted", "C18_deterministic", "C18_total", "C18_respacing", "C18_respacing_plain",
-                 "C18_chunks_setting_independent", "C18_chunks_text"],
+    "theorems": ["C18_refuted", "C18_deterministic", "C18_total", "C18_total_parsed", "C18_respacing",
+                 "C18_respacing_plain", "C18_chunks_setting_independent", "C18_chunks_text", "C18_modulo_lexing"],
     "correspond": correspond,
     "statement": "for every parsed query t and every setting, parse(pretty cfg t) is a tree equal to t: REFUTED by "
-                 "'\"a\\nb\" AND c' (F11); proved in general: pretty is a total function on trees whose operations "
-                 "have an operand, and its output is the setting-independent chunk sequence glued by non-empty "
-                 "blank/newline separators, with every newline inside a chunk replaced by such a separator",
-    "level_text": "Coq proof (PARTIAL): (1) the full statement is refuted by a computed witness; (2) pretty is "
-                  "deterministic and never raises on a tree whose operations all have an operand; (3) for every "
-                  "setting the output is: optional leading blanks, then the chunks of the tree (operator words, "
-                  "parentheses, 'name:', verbatim text of simple elements — a sequence that does not depend on the "
-                  "setting) separated by non-empty separators that are ' '+blanks or newline+blanks, each newline "
-                  "inside a chunk being replaced by such a separator; hence when no chunk contains a newline the "
-                  "output is exactly a re-spacing of the chunk sequence, and the chunks concatenated are the "
-                  "printed tree with the layout of its operation/group/field spine removed. NOT proved: that a "
-                  "re-spacing parses to an equal tree (layout independence of the parser, C03(a)); that last step "
-                  "is validated on every run by the correspondence, which evaluates the executable statement "
-                  "parse(pretty cfg t) == t both on the real parser/prettifier and on the Coq models "
-                  "(Parser.parse (pretty ...) by vm_compute) and compares the verdicts and the pretty strings.",
+                 "'\"a\\nb\" AND c' (F11). Proved: pretty never raises on a parsed query (any LR tables) and is a "
+                 "function; for every setting its output is the setting-independent chunk sequence glued by "
+                 "non-empty blank/newline separators, each newline inside a chunk being replaced by such a separator; "
+                 "and the statement's conclusion holds whenever the pretty text lexes to the query's tokens",
+    "level_text": "Coq proof (PARTIAL). Proved: (1) the full statement is refuted by a computed witness (F11); "
+                  "(2) pretty is deterministic and never raises on a tree whose spine operations all have an operand, "
+                  "in particular (for ANY LR tables) on every tree the parser returns; (3) for every setting (any "
+                  "indent, max_len, inline_ops: the width arithmetic is irrelevant) the output is: leading blanks, "
+                  "then the chunks of the tree (operator words, parentheses, 'name:', verbatim text of simple "
+                  "elements - a sequence that does not depend on the setting and whose concatenation is the printed "
+                  "tree with the layout of its operation/group/field spine removed) separated by separators that are "
+                  "one blank or one newline followed by blanks, each newline inside a chunk replaced by such a "
+                  "separator; without a newline in the chunks the output is exactly that re-spacing; (4) using the "
+                  "any-table layout independence of the LR driver (C03a): if the pretty text lexes to the same "
+                  "(type, lexeme) token sequence as the query, it parses to a tree equal (luqum ==) to the original. "
+                  "NOT proved: that a re-spacing of the chunks lexes to the query's tokens (a lexer fact; false "
+                  "exactly in the F11 situation). That last step is validated on every run by the correspondence, "
+                  "which evaluates the executable statement parse(pretty cfg t) == t both on the real "
+                  "parser/prettifier and on the Coq models (Parser.parse (pretty ...) by vm_compute) and compares "
+                  "the verdicts and the pretty strings; non-modification of the input is checked by snapshots.",
     "trusted_base": [
         "Coq 8.16.1 kernel (vm_compute for the witness, table facts and correspondence; no native_compute); no axioms",
         "gen/translate.py: class MROs (isinstance cascade of _get_chains), `op` strings, bracket characters",
